@@ -119,6 +119,8 @@ def py_axis_sim(os_, ns, oc, nc):
     h = oc // f
     if h == 0:
         return "error"
+    if h == 1 and min(nc, ns) >= 3:
+        return "error"          # refused up front since /repo e7c7a72 (was: silent stretch)
     cff = nc // h
     bad = False
     for i in range(ceil_div(ns, nc)):
